@@ -8,7 +8,9 @@ Description languages (all JSON-able, so that a replay file is self-contained)
                    'enums':   [{'name', 'literals': [str]}],
                    'classes': [{'name','abstract': bool,'supers': [class name],
                                 'features': [feature]}]}
-  feature    {'kind': 'attr', 'name','type': data type or enum name,'many','unique','iD'}
+  feature    {'kind': 'attr', 'name','type': data type or enum name,'many','unique','iD',
+              optional 'default': tagged value (EAttribute(default_value=...)),
+              optional 'default_literal': text (EAttribute(defaultValueLiteral=...)) with 'default_literal_value': the tagged value it denotes}
              {'kind': 'ref',  'name','type': class name,'many','unique','containment',
               'opposite': name of the opposite reference (declared in class `type`) or None}
   model      md = {'roots': [oid], 'objs': {str(oid): {'cls': class name, 'sets': [[feature name, v]]}}}
@@ -122,6 +124,38 @@ def gen_value(rng, typ, mm, fmt='xmi'):
     raise ValueError(typ)
 
 
+def type_default(typ, mm):
+    """the default value of the data type itself (EDataType.default_value), tagged"""
+    if typ in ('EInt', 'ELong'):
+        return ['i', 0]
+    if typ == 'EBoolean':
+        return ['b', False]
+    if typ in ('EDouble', 'EFloat'):
+        return ['f', '0.0']
+    for e in mm['enums']:
+        if e['name'] == typ:
+            return ['e', e['literals'][0]]
+    return ['n']
+
+
+def literal_of(v):
+    """a text that the data type's from_string reads as the tagged value v (for defaultValueLiteral)"""
+    t = v[0]
+    if t == 'b':
+        return 'true' if v[1] else 'false'
+    if t == 'i':
+        return str(v[1])
+    return v[1]          # s, f (repr), D, d (ISO format), e (literal name)
+
+
+def declared_default(f):
+    """what an untouched single-valued attribute reads as, when the description declares it (else None): the
+    literal wins over the explicit default value (EAttribute.get_default_value)"""
+    if f.get('default_literal') is not None:
+        return f['default_literal_value']
+    return f.get('default')
+
+
 def value_class(v):
     """coarse class of a tagged value (used in failure signatures)"""
     if v is None or v[0] == 'n':
@@ -233,8 +267,15 @@ def gen_metamodel(rng, serial=0):
             many = rng.random() < 0.45
             feat = {'kind': 'attr', 'name': f'a{k}', 'type': typ, 'many': many,
                     'unique': (rng.random() < 0.5) if many else True, 'iD': False}
-            if not many and rng.random() < 0.25:
-                feat['default'] = gen_value(rng, typ, mm)       # a declared default value
+            if not many:
+                # declared defaults: an explicit default_value, a defaultValueLiteral, or both (the literal wins)
+                r = rng.random()
+                if r < 0.18 or 0.36 <= r < 0.42:
+                    feat['default'] = gen_value(rng, typ, mm)
+                if 0.18 <= r < 0.42:
+                    dv = gen_value(rng, typ, mm)
+                    feat['default_literal'] = literal_of(dv)
+                    feat['default_literal_value'] = dv
             c['features'].append(feat)
             k += 1
     # references
@@ -351,14 +392,21 @@ def gen_model(rng, mm, fmt='xmi', size=None, odd_ids=False):
                             vals.append(['n'])
                         elif vals and not f['unique'] and rng.random() < 0.25:
                             vals.append(list(_pick(rng, vals)))     # a duplicate
+                        elif rng.random() < 0.1 and type_default(f['type'], mm) != ['n']:
+                            vals.append(type_default(f['type'], mm))
                         else:
                             vals.append(gen_value(rng, f['type'], mm, fmt))
                     script.append([f['name'], vals])
                 else:
-                    if r < 0.28:
-                        script.append([f['name'], ['n']])
-                    elif r < 0.36 and f.get('default') is not None:
-                        script.append([f['name'], list(f['default'])])      # explicitly set to its default
+                    if r < 0.45:
+                        # values on which "is it the default?" turns: None, the default of the data type, the
+                        # declared default (explicit value / literal), each of them also when another one is declared
+                        pool = [['n'], type_default(f['type'], mm)]
+                        if f.get('default') is not None:
+                            pool.append(list(f['default']))
+                        if f.get('default_literal') is not None:
+                            pool.append(list(f['default_literal_value']))
+                        script.append([f['name'], _pick(rng, pool)])
                     else:
                         v = gen_value(rng, f['type'], mm, fmt)
                         if v[0] == 'e' and rng.random() < 0.15:
@@ -443,6 +491,8 @@ class Built:
                     kw = {}
                     if f.get('default') is not None:
                         kw['default_value'] = self.pyvalue(f['default'], f['type'])
+                    if f.get('default_literal') is not None:
+                        kw['defaultValueLiteral'] = f['default_literal']
                     a = E.EAttribute(f['name'], t, upper=-1 if f['many'] else 1, unique=f['unique'],
                                      iD=bool(f.get('iD')), **kw)
                     self.features[f['name']] = a
